@@ -270,4 +270,44 @@ PROPS = {
         required_counters=["entry.sdo_read_u32", "entry.sdo_write", "entry.sdo_info_list", "entry.sdo_info_quantities", "reply.mutated", "reply.emergency", "reply.segment", "device_refills_forever", "outcome.value", "outcome.error"],
         runs=[native("mbx-release", "c16", "release"), native("mbx-debug", "c16", "debug", args={"scale-pct": dict(quick=40, thorough=10)})],
     ),
+
+    "C17": dict(
+        level="exploration",
+        engine="simnet",
+        technique="runtime monitoring against a ground-truth physical model: port receive times are computed by walking the frame's path through a generated tree with symmetric link delays and per-device clock offsets; after the real init the registers 0x0920/0x0928, propagation_delay(), the parent index (cfg-gated accessor) and the FRMW target are compared with the tree; a hostile family feeds arbitrary DL-status / port-time reports under catch_unwind",
+        level_text=("Random trees of 1..24 devices (chains, forks, crosses, nested branches on ports 3/1/2), link delays 10..2000 ns, mixed DC/non-DC devices, 32/64-bit clocks, clock offsets placed so that the 32 bit port times straddle the counter wrap while the frame is inside the device, master time over all of u64. "
+                    "Held = delay non-decreasing in ring order over DC devices and programmed into 0x0928, exact sum of link delays on all-DC chains, parent == true upstream neighbour, offset == master time - latched receive time (mod 2^64), non-DC devices untouched, FRMW reference == first DC device; arbitrary DL status / scrambled port times give an error or a value, never a panic or hang."),
+        level_note="Exact delays are claimed on pure all-DC chains only (as the property states); forwarding delay is folded into the link delay so that 'symmetric' is exact.",
+        rule="case = one generated tree (or hostile report set); non-trivial = at least 2 devices; distinct by scenario hash",
+        assumptions=["frames enter every device on port 0"],
+        min_distinct=dict(quick=1000, thorough=100000),
+        required_counters=["tree.chain", "tree.branched", "tree.near_32bit_wrap", "exact_chain_checks", "hostile_reports", "networks_with_dc"],
+        runs=[native("topo-release", "c17", "release"), native("topo-debug", "c17", "debug", args={"scale-pct": dict(quick=30, thorough=5)})],
+    ),
+    "C18": dict(
+        level="exploration",
+        engine="simnet",
+        technique="runtime monitoring of the simulated DC registers (write log of 0x0981/0x0990/0x09A0/0x09A4 per device) around configure_dc_sync and of CycleInfo returned by tx_rx_dc while the simulated reference clock answers chosen 64 bit times; debug and release builds",
+        level_text=("Groups of 1..8 devices with every mix of DC support (none/ref-only/32/64 bit) and DcSync (disabled/SYNC0/SYNC0+1), periods, start delays and shifts from {1, 2, u32::MAX-1, u32::MAX, u32::MAX+1, random}, set-up reference times and 6 per-cycle reference times per case from {0, P-1, P, 2^32+-1, 2^63+-1, u64::MAX(-1), random}. "
+                    "Held = only devices that support DC and asked for it are written; start time is a multiple of the period in (ref+delay-period, ref+delay]; cycle times and activation flags per mode; period/delay above 32 bit and a network without reference are rejected; per cycle offset == t mod P and wait == (P - offset) + shift, no panic."),
+        level_note="When reference time + start delay exceeds u64 the interval of the statement is not representable; such set-ups are recorded as observations, not judged. SYNC1 periods are kept within 32 bit.",
+        rule="case = (support/mode mix, period, delay, shift, reference times); distinct by scenario hash",
+        assumptions=[],
+        min_distinct=dict(quick=1000, thorough=100000),
+        required_counters=["setup_ok", "over_32bit_rejected", "no_reference_rejected", "cycles"],
+        runs=[native("dcsync-release", "c18", "release"), native("dcsync-debug", "c18", "debug", args={"scale-pct": dict(quick=30, thorough=5)})],
+    ),
+    "C20": dict(
+        level="exploration",
+        engine="simnet",
+        technique="runtime monitoring with a sequential oracle: every scenario is executed twice from identically built simulated segments - tasks interleaved by a seeded executor at every await with per-frame latencies 0..500 us delivered in any order, and each task alone - and the per-task result sequences and the device-side end state are compared",
+        level_text=("2..4 cooperative tasks (process-data cycles of different groups with per-task output patterns, register write/read/status on private RAM areas, SDO reads (expedited and normal) and writes on distinct devices) over 2..8 devices in 2..3 groups, storage of 8 or 16 slots, latency profiles 0, 0..50, 0..500, 100..500 us with reordering. "
+                    "Held = identical result sequences per task, no operation failing only when shared, identical output memory and download logs on the devices."),
+        level_note="Single-threaded cooperative interleaving (true parallelism is covered for the PDU loop by C02's Miri/TSan runs). Tasks never touch a group's image while that group's cycle is in flight (the documented lock contract).",
+        rule="case = one scenario (network, task set, storage size, latency profile, executor seed); distinct by scenario hash",
+        assumptions=["operations of different tasks commute (different groups / devices / RAM areas)"],
+        min_distinct=dict(quick=300, thorough=30000),
+        required_counters=["task.cycle", "task.register", "task.sdo", "slots.8", "frames_interleaved"],
+        runs=[native("tasks-release", "c20", "release"), native("tasks-debug", "c20", "debug", args={"scale-pct": dict(quick=20, thorough=5)})],
+    ),
 }
